@@ -381,6 +381,9 @@ def classify(case, impl, why):
     for n in nodes(e):
         if n['k'] == 'tupr' and len(set(n['xs'])) != len(n['xs']):
             return 'tuple-repeated-pointer'
+    for n in nodes(e):
+        if n['k'] in ('range', 'slice') and any(a != '_' and abs(a) >= 2 ** 62 for a in n['args']):
+            return 'range-int64-overflow'
     if 'backward' in why:
         for n in nodes(e):
             if n['k'] == 'zip' and any(not haslen(u) and u['k'] != 'filter' for u in n['sub']):
@@ -517,6 +520,18 @@ def gen_expr(rng, depth, maxlen, need_len=False):
     return {'k': k, 'id': rng.randrange(len(PREDS) if k == 'filter' else len(FUNS)), 'sub': [gen_expr(rng, depth - 1, maxlen, need_len)]}
 
 
+def big_range(rng):
+    """range arguments of large magnitude, inside the box |.| < 2^62 of the Range theorems (few items)"""
+    B = 2 ** 62 - 1
+    pick = lambda: rng.choice([B, -B, B - rng.randrange(5), -B + rng.randrange(5), rng.randrange(-B, B + 1), rng.randrange(-5, 6)])
+    st = rng.choice([B, -B, B // 2, -(B // 2), B // 3 + rng.randrange(9), -(B // 5), rng.randrange(1, B + 1), -rng.randrange(1, B + 1)])
+    if rng.random() < .3:
+        st = rng.choice([1, -1, 2, -3])
+        a = pick(); b = max(-B, min(B, a + rng.randrange(-6, 7)))
+        return 'range %d,%d,%d' % (a, b, st)
+    return 'range %d,%d,%d' % (pick(), pick(), st)
+
+
 def opt_box(b):
     return ['_'] + list(range(-b, b + 1))
 
@@ -555,6 +570,11 @@ def boundary_cases():
                     'slice _,_,2 %s %s' % (kind, xs), 'slice _,_,-2 %s %s' % (kind, xs), 'slice -100,100,3 %s %s' % (kind, xs),
                     'slice 1,-1,-3 %s %s' % (kind, xs), 'rev rev %s %s' % (kind, xs), 'slice 1,_,2 rev %s %s' % (kind, xs),
                     'zip 3 %s %s rev %s %s map 3 %s %s' % (kind, xs, kind, xs, kind, xs)]
+    # large magnitudes just inside the box |.| < 2^62 of the Range theorems (beyond it: open finding range-int64-overflow)
+    out += ['range 4611686018427387901,4611686018427387903,1', 'range -4611686018427387903,4611686018427387903,4611686018427387903',
+            'range -4611686018427387903,4611686018427387903,-4611686018427387903', 'range _,4611686018427387903,4611686018427387902',
+            'range -4611686018427387903,-4611686018427387900,_', 'slice _,_,4611686018427387903 arr 1,2,3',
+            'slice 1,_,-4611686018427387903 list 1,2,3', 'slice -4611686018427387903,4611686018427387903,2 tup 1,2,3,4,5']
     out += ['zip 0', 'rev zip 0', 'map 1 zip 0', 'enum zip 0', 'range -', 'range 0', 'range -3', 'range 5,0', 'range 0,0,2',
             'range 0,10,4', 'range 0,10,-4', 'range _,7,-3', 'range -7,7,5', 'range 3,4,-12', 'rev range 0,10,4',
             'slice _,_,-3 range 0,10,4', 'enum range 2,11,3', 'zip 2 range 5 range 3', 'zip 2 range 3 range 5',
@@ -582,6 +602,7 @@ CORPUS = [
 PROBES = {
     'tuple-repeated-pointer': 'tupr 0,1,0,2',
     'zip-backward-input-without-len': 'zip 2 map 0 filter 0 arr 1,2,3 arr 1,2',
+    'range-int64-overflow': 'range 0,9223372036854775807,4611686018427387904',
 }
 
 
@@ -591,7 +612,7 @@ def run(ctx):
         'cases are iterable expressions: a leaf (Array/List/Tuple/Table/Tree with 0..N integer elements, or range(start,stop,step) '
         'with arguments omitted / negative / beyond) under up to 3 view layers slice(a,b,s)/reverse/zip(k inputs)/enumerate/'
         'filter(6 predicates)/map(5 functions).  Streams: corpus of repaired witnesses; hand-written boundary set; EXHAUSTIVE '
-        'boxes (all range(a,b,s) and all slice(a,b,s) over a container, arguments in [-B,B] or omitted); seeded random nested '
+        'boxes (all range(a,b,s) and all slice(a,b,s) over a container, arguments in [-B,B] or omitted); seeded ranges of magnitude up to 2^62-1; seeded random nested '
         'expressions.  For each case the harness prints len, forward walk (cut off at 2*len+4), backward walk, get(0..len-1); the '
         'oracle recomputes the denoted list from the definitions in Python.  A case is non-trivial when it exercises at least one '
         'boundary predicate of props/C11.py:feats (empty/one/many leaf, negative step, length not divisible by the step, '
@@ -696,6 +717,7 @@ def run(ctx):
                 n = rng.randrange(0, 10)
                 cases.append('slice %s %s %s' % (a_s([rng.choice(opt_box(B)), rng.choice(opt_box(B)), rng.choice(allsteps)]),
                                                  kind, a_s(contents(rng, n, kind))))
+        cases += [big_range(rng) for _ in range(1500)]
         cases += [unparse(gen_expr(rng, rng.choice([1, 2, 2, 3, 3]), 9)) for _ in range(6000)]
         ctx.cov['exhaustive'] = {'range_box': 'all range(a,b,s), a,s in [-12,12] or omitted, b in [-12,12], s != 0',
                                  'slice_box_array': 'all slice(a,b,s) over Arrays of length 0..9, a,b in [-12,12] or omitted, s in [-12,12]\\{0} or omitted',
@@ -714,6 +736,7 @@ def run(ctx):
                 n = rng.randrange(0, 41)
                 cases.append('slice %s %s %s' % (a_s([rng.choice(opt_box(B)), rng.choice(opt_box(B)), rng.choice([t for t in opt_box(B) if t != 0])]),
                                                  kind, a_s(contents(rng, n, kind))))
+        cases += [big_range(rng) for _ in range(20000)]
         cases += [unparse(gen_expr(rng, 3, rng.choice([5, 12, 40]))) for _ in range(100000)]
         ctx.cov['exhaustive'] = {'range_box': 'all range(a,b,s) with arguments in [-20,20] or omitted',
                                  'slice_box': 'all slice(a,b,s) over lengths 0..12,17,25,40 with a,b in [-(n+3),n+3] or omitted, s in [-(n+4),n+4]'}
